@@ -255,7 +255,7 @@ def minimise_file(a):
     doc["minimiser_executions"] = used
     doc["violations"] = [v for v in res.get("violations", ()) if prop.violation_class(v) == cls][:3]
     doc["log_digest"] = res.get("log_digest")
-    json.dump(doc, open(a.minimise, "w"), indent=1, sort_keys=True)
+    json.dump(doc, open(a.minimise, "w"), indent=1)  # never sort keys (see above)
     sys.stdout.write("\n@@RESULT@@" + json.dumps({"used": used}) + "\n")
     return 0
 
@@ -376,7 +376,7 @@ def top(a):
         replay_path = os.path.join(VERIF, "replays", "%s-%d.json" % (pid, v["run_seed"]))
         doc = {"property": pid, "hashseed": hs, "verif_seed": a.seed, "index": v["index"], "run_seed": v["run_seed"],
                "tier": tier, "violation_class": cls, "scenario": v["scenario"], "violations": v["violations"][:3]}
-        json.dump(doc, open(replay_path, "w"), indent=1, sort_keys=True)
+        json.dump(doc, open(replay_path, "w"), indent=1)  # never sort: keyword order inside schemas is part of the scenario
         try:
             if not a.no_minimise:
                 run_tool("--minimise", replay_path, hs, timeout=1200, extra=["--min-budget", str(a.min_budget)])
